@@ -266,3 +266,62 @@ Proof.
 Qed.
 
 End ContStep.
+
+Section ContTop.
+Variable F : fops.
+Variable rec1 : task -> M sx.
+Variable recm : nat -> task -> M sx.
+Hypothesis Hrec : forall t, Cont (rec1 t) (fun f => recm f t).
+
+Lemma readtime_C : forall n x, ax_size x <= n ->
+  Cont (readtime rec1 x) (fun f => readtime (recm f) x).
+Proof.
+  induction n as [|n IH]; intros x Hx; [destruct x; simpl in Hx; lia|].
+  destruct x; cbn [readtime]; try solve [apply Cont_const];
+    try solve [simpl in Hx; apply Cont_bind; [apply IH; lia|intros; apply Cont_const]].
+  change (ax_size (AList xs tl sp)) with
+    (S (axs_size xs + match tl with Some t => ax_size t | None => 0 end)) in Hx.
+  apply Cont_bind.
+  - assert (Hg : axs_size xs <= n) by lia. clear Hx. revert Hg.
+    induction xs as [|a xs IHxs]; intros Hg; [apply Cont_const|].
+    change (axs_size (a :: xs)) with (ax_size a + axs_size xs) in Hg.
+    apply Cont_bind; [apply IH; lia|]. intros v.
+    apply Cont_bind; [apply IHxs; lia|]. intros vs. apply Cont_const.
+  - intros elems. apply Cont_bind.
+    + destruct tl; [|apply Cont_const]. apply Cont_bind; [apply IH; lia|intros; apply Cont_const].
+    + intros tlv. destruct (of_list elems tlv) as [| | | | | | | |hd tl2| | | | | | | | | | |];
+        try apply Cont_const.
+      destruct hd as [| | | | |nm| | | | | | | | | | | | | |]; try apply Cont_const.
+      destruct (text_eqb nm n_defun || text_eqb nm n_defmacro); [|apply Cont_const].
+      apply Cont_bind; [apply Hrec|]. intros e.
+      apply Cont_bind; [apply Hrec|]. intros _. apply Cont_const.
+Qed.
+
+Lemma readtime_all_C : forall l, Cont (readtime_all rec1 l) (fun f => readtime_all (recm f) l).
+Proof.
+  induction l as [|a l IH]; simpl; [apply Cont_const|].
+  apply Cont_bind; [eapply readtime_C; apply Nat.le_refl|]. intros v.
+  apply Cont_bind; [apply IH|]. intros vs. apply Cont_const.
+Qed.
+
+Lemma parse_body_C t : Cont (parse_body F rec1 t) (fun f => parse_body F (recm f) t).
+Proof.
+  intros s r s' H Hr. unfold parse_body in H.
+  destruct (read_ax F (flags s) t) as [forms|e|n|] eqn:E.
+  - assert (HC : Cont (bind (readtime_all rec1 forms)
+                            (fun forms' => rec1 (TExpand (of_list forms' Nil))))
+                      (fun f => bind (readtime_all (recm f) forms)
+                                     (fun forms' => recm f (TExpand (of_list forms' Nil))))).
+    { apply Cont_bind; [apply readtime_all_C|]. intros. apply Hrec. }
+    destruct (HC s r s' H Hr) as [f0 H0]. exists f0. intros f Hf. cbv beta. unfold parse_body. rewrite E. apply H0. assumption.
+  - exists 0. intros f _. cbv beta. unfold parse_body. rewrite E. assumption.
+  - exists 0. intros f _. cbv beta. unfold parse_body. rewrite E. assumption.
+  - exists 0. intros f _. cbv beta. unfold parse_body. rewrite E. assumption.
+Qed.
+
+Lemma run_body_C t : Cont (run_body F rec1 t) (fun f => run_body F (recm f) t).
+Proof.
+  unfold run_body. apply Cont_bind; [apply parse_body_C|]. intros out.
+  apply (eval_progn_C rec1 recm Hrec).
+Qed.
+End ContTop.
